@@ -93,6 +93,7 @@ impl GenCfg {
 const ASCII: &[&str] = &["A", "B", "C", "D", "E", "Foo", "Bar", "Baz", "Main", "a", "b", "c", "d", "x", "y", "z", "L", "LL", "Lx", "xL", "aLb", "I", "V", "Z", "J",
     "_", "a1", "Abc", "get", "set", "value", "thing", "Entry", "Node", "run", "of", "m", "f", "p", "C"];
 const UNI: &[&str] = &["é", "Ж", "ß", "名前", "クラス", "𝒳", "Ω", "ñandú", "ǅ", "a\u{301}", "Ünï", "ʟ", "Lé", "🦀"];
+const ANGLE: &[&str] = &["Gen<T>", "a<b", "<x>", "Short<", ">", "Map<K,V>"];
 const DIGITS: &[&str] = &["1", "2", "3", "12", "007"];
 const PKGS: &[&str] = &["a/", "a/b/", "com/example/", "net/minecraft/", "net/minecraft/unmapped/", "x/y/z/", "L/", "ж/", "a/a/"];
 const PH_CLASS: &[&str] = &["C_12", "C_3", "C_", "net/minecraft/unmapped/C_3", "net/minecraft/unmapped/C_77", "xC_1", "aC_2", "net/minecraft/unmapped/xC_5", "net/minecraft/C_4", "unmapped/C_6", "C_1$C_2"];
@@ -130,7 +131,8 @@ pub fn class_sources(rng: &mut Rng, cfg: &GenCfg, want: usize) -> Vec<String> {
             else {
                 let pkg = if cfg.packages && rng.chance(1, 2) { rng.pick(PKGS).to_string() } else { String::new() };
                 let pkg = if !cfg.unicode && !pkg.is_ascii() { "q/".to_string() } else { pkg };
-                let s = simple_name(rng, cfg);
+                // `<` and `>` are ordinary characters in class (and field) names; only method names exclude them
+                let s = if cfg.unicode && rng.chance(1, 30) { rng.pick(ANGLE).to_string() } else { simple_name(rng, cfg) };
                 if cfg.odd_dollar && rng.chance(1, 25) { format!("{pkg}{}", match rng.below(4) { 0 => format!("{s}$"), 1 => format!("${s}"), 2 => "$".to_string(), _ => format!("{s}$$X") }) }
                 else { format!("{pkg}{s}") }
             };
@@ -161,7 +163,7 @@ pub fn class_target(rng: &mut Rng, cfg: &GenCfg) -> String {
         if (cfg.target_packages || !p.contains('/')) && (cfg.target_dollar || !p.contains('$')) { return p; }
         return rng.pick(PH_SIMPLE_CLASS).to_string();
     }
-    let mut s = simple_name(rng, cfg);
+    let mut s = if cfg.unicode && rng.chance(1, 30) { rng.pick(ANGLE).to_string() } else { simple_name(rng, cfg) };
     if cfg.target_dollar && rng.chance(1, 6) { s = format!("{s}${}", inner_name(rng, cfg)); }
     if cfg.target_packages && rng.chance(1, 3) { let p = rng.pick(PKGS); if cfg.unicode || p.is_ascii() { s = format!("{p}{s}"); } }
     s
